@@ -1073,6 +1073,14 @@ func c19Instances(add func(*Instance), thorough bool) {
 		for _, par := range []int{0, 1, 2} {
 			ad(with(base, "st", 9, "par", par), 0)
 		}
+		// ParOr with arguments of different widths: wider argument, and two arguments (wide then narrow, narrow then wide)
+		pb := base
+		if pkg == "roaring64" {
+			pb = P("nv", 1, "w", 2) // one receiver column: 256 paths instead of 1024 (each runs the goroutine fan-out of ParOr)
+		}
+		ad(with(pb, "st", 9, "par", 0, "w2", 4), 0)
+		ad(with(pb, "st", 9, "par", 0, "w2", 4, "w3", 2), 0)
+		ad(with(pb, "st", 9, "par", 1, "w2", 2, "w3", 4), 0)
 		ad(with(base, "st", 10, "sc", 0), 0)
 		ad(with(base, "st", 10, "sc", 2), 0)
 		ad(with(base, "st", 10, "sc", 0, "w2", 3), 0)
